@@ -24,3 +24,6 @@ Definition check_gcase (c : gcase) : bool :=
       && same_keys (c_mo st) (gc_mo c) && same_keys (c_ms st) (gc_ms c)).
 
 Definition bad_gcases (cs : list gcase) : list nat := bad_idx check_gcase 0 cs.
+
+(* the real source graphs meet the hypothesis of CopyProofs.memoised_copy_accepted *)
+Definition bad_wf (cs : list gcase) : list nat := bad_idx (fun c => wf_srcb (gc_src c)) 0 cs.
